@@ -6,6 +6,7 @@ package main
 // used by one goroutine only (slot = 10*(g+1)+k; setup opens the handles it hands out).
 
 import (
+	"bytes"
 	"fmt"
 	"os"
 	"strings"
@@ -555,6 +556,26 @@ func c04WindowProgs() []*c04Prog {
 			}
 		}
 	}
+	// (iv) one call that writes more than any internal chunk size ‖ the same through another handle:
+	// a Write / WriteString / WriteAt is ONE section of the file's mutex, whatever its length (under
+	// the lock-aware scheduler every acquisition inside the call is a switching point)
+	{
+		big := func(ch byte) string { return c04hxBytes(bytes.Repeat([]byte{ch}, 40000)) }
+		for _, ops := range [][2]string{{"HWriteString %d %s", "HWriteString %d %s"}, {"HWrite %d %s", "HWriteString %d %s"}, {"HWriteString %d %s", "HReadAt %d 40000 0"}} {
+			p := &c04Prog{Focus: "window-big-write"}
+			p.Setup = append(p.Setup, c04MkFile("/f", "")...)
+			p.Setup = append(p.Setup, oOpenFile(c04Slot(0, 0), "/f", os.O_RDWR, 0), oOpenFile(c04Slot(1, 0), "/f", os.O_RDWR, 0))
+			t0 := c04Item(-1, ops[0], c04Slot(0, 0), big('A'))
+			var t1 string
+			if strings.Contains(ops[1], "ReadAt") {
+				t1 = c04Item(-1, ops[1], c04Slot(1, 0))
+			} else {
+				t1 = c04Item(-1, ops[1], c04Slot(1, 0), big('B'))
+			}
+			p.Threads = [][]string{{t0}, {t1}}
+			out = append(out, p)
+		}
+	}
 	// (iii) Mkdir / MkdirAll / Create of a name below a missing parent ‖ the parent appearing as a
 	// regular FILE (or as a directory): the ancestor check and the insertion are one section, so
 	// either the file is created first (then ENOTDIR) or the directory chain (then the exclusive
@@ -819,3 +840,5 @@ func c04PreemptProgs(tier string) []c04Preempt {
 }
 
 var _ = fmt.Sprint
+
+func c04hxBytes(b []byte) string { return hx(b) }
